@@ -22,6 +22,7 @@ Reading guide
 -/
 import EPV.Lemmas.Globals
 import EPV.Lemmas.GlobalsThreads
+import EPV.Lemmas.GlobalsXmlText
 namespace EPV.C19
 open EPV.Globals
 
@@ -309,6 +310,38 @@ example :
     c.ts.map (·.seen) = [[("de_DE.UTF-8", "de_DE.UTF-8"), ("fr_FR.UTF-8", "fr_FR.UTF-8"),
                            ("de_DE.UTF-8", "de_DE.UTF-8")], [("fr_FR.UTF-8", "fr_FR.UTF-8")], []] ∧
     c.ts.all (·.done) = true := by
+  decide +kernel
+
+/-! ## The prolog scanner against the XML 1.0 prolog grammar: DOCTYPE detection -/
+
+open EPV.GlobalsSpec.PrologGrammar in
+/-- **`scanner_finds_doctype_iff`.**  Against the grammar `XMLDecl? Misc* S? (doctypedecl | element)`
+of EPV/Spec/GlobalsSpec.lean — any XML declaration with a leading `version`, any comments
+(no `--` inside) and PIs (target ≠ `xml`, no `?>` inside) separated by any white space, in any
+number and order — the scanner records a DOCTYPE **iff** the construct that follows is a
+DOCTYPE declaration, and none iff it is the root element's start tag.  In particular a
+`<!DOCTYPE`/`<!ENTITY` *inside* a comment or PI is never mistaken for one, and a DOCTYPE after
+any amount of comments / PIs / white space / an XML declaration is never missed. -/
+theorem scanner_finds_doctype_iff (xd : Option (Char × List Char))
+    (items : List (List Char × MiscItem)) (pad tail : List Char)
+    (hx : xmlDeclWf xd = true) (hi : miscWf items = true) (hp : pad.all XmlText.isWs = true)
+    (ht : startsDoctype tail = true ∨ startsRoot tail = true) :
+    (XmlText.scanProlog (renderXmlDecl xd ++ (renderMisc items ++ pad ++ tail))).doctype.isSome = true
+      ↔ startsDoctype tail = true := by
+  rw [XmlText.scanProlog_finds_doctype xd items pad tail hx hi hp ht]
+
+open EPV.GlobalsSpec.PrologGrammar in
+/-- the hypotheses are satisfiable on a non-trivial text (test on literals): XML declaration, a
+comment that contains `<!DOCTYPE`, an `xml-stylesheet` PI that contains `<!ENTITY`, white space —
+followed once by the root element and once by a DOCTYPE declaring an entity -/
+example :
+    let xd := some (' ', "version=\"1.0\" encoding=\"utf-8\"".toList)
+    let items := [([], MiscItem.comment " <!DOCTYPE r [<!ENTITY e \"x\">]> ".toList),
+                  (['\n'], MiscItem.pi "xml-stylesheet".toList " href=\"<!ENTITY\"".toList)]
+    xmlDeclWf xd = true ∧ miscWf items = true ∧
+    (XmlText.scanProlog (renderXmlDecl xd ++ (renderMisc items ++ [' '] ++ "<r>t</r>".toList))).doctype = none ∧
+    (XmlText.scanProlog (renderXmlDecl xd ++ (renderMisc items ++ [' '] ++
+      "<!DOCTYPE r [<!ENTITY e \"EXP\">]><r>&e;</r>".toList))).forbidden = true := by
   decide +kernel
 
 /-! ## The three repaired defects, as theorems about the earlier code (record) -/
